@@ -62,7 +62,7 @@ func (w *World) errRecorders() map[*types.Func]*errRecorder {
 			if !ok || len(as.Lhs) != 1 || len(as.Rhs) != 1 {
 				return true
 			}
-			if _, fld := fieldOf(info, as.Lhs[0]); fld != pm.errorsF {
+			if !pm.isErrorsLHS(as.Lhs[0]) {
 				return true
 			}
 			c, ok := unparen(as.Rhs[0]).(*ast.CallExpr)
@@ -323,7 +323,7 @@ func parserMessagesRule(r *Run, rule string) {
 				if len(x.Lhs) != 1 || len(x.Rhs) != 1 {
 					return true
 				}
-				if _, fld := fieldOf(info, x.Lhs[0]); fld != pm.errorsF {
+				if !pm.isErrorsLHS(x.Lhs[0]) {
 					return true
 				}
 				c, ok := unparen(x.Rhs[0]).(*ast.CallExpr)
